@@ -315,7 +315,14 @@ impl Multiboot2BasicHeader {
 
 impl Header for Multiboot2BasicHeader {
     fn payload_len(&self) -> usize {
-        self.length as usize - size_of::<Self>()
+        // Must not underflow for a (corrupt) length smaller than the header
+        // itself. `total_size()` still reports the stored value, so that such
+        // a structure is rejected as `ShorterThanHeader`.
+        (self.length as usize).saturating_sub(size_of::<Self>())
+    }
+
+    fn total_size(&self) -> usize {
+        self.length as usize
     }
 
     fn set_size(&mut self, total_size: usize) {
